@@ -200,6 +200,80 @@ Proof.
   apply G.
 Qed.
 
+(** ** the Estimator as a state machine ([src/estimator/estimator.rs]: the only public mutators are [new] and [add_data];
+    [cost], [predict], [relative_difference], [mean_absolute_relative_difference], [datasets] only read)
+
+    state = the parallel vectors (weights, data sets with their losses); [new] stores them as given, [add_data] pushes
+    one weight / data set / loss at the end; [cost] normalises the STORED weights by their sum. *)
+From Coq Require Import Permutation.
+
+Definition est_state : Type := (list R * list dataset)%type.
+
+Definition est_new (ws : list R) (ds : list dataset) : est_state := (ws, ds).
+Definition est_add (st : est_state) (wd : R * dataset) : est_state := (fst st ++ [fst wd], snd st ++ [snd wd]).
+Definition est_run (st : est_state) (adds : list (R * dataset)) : est_state := fold_left est_add adds st.
+Definition est_cost_st (st : est_state) : list R := est_cost (fst st) (snd st).
+
+(** history independence: [new] followed by any sequence of [add_data] is the same estimator as a single [new] with all
+    weights / data sets (in particular building everything by [add_data] from the empty estimator) *)
+Theorem est_run_as_new ws ds adds :
+  est_run (est_new ws ds) adds = est_new (ws ++ map fst adds) (ds ++ map snd adds).
+Proof.
+  unfold est_run, est_new. revert ws ds. induction adds as [|[w d] adds IH]; intros ws ds; simpl.
+  - now rewrite !app_nil_r.
+  - unfold est_add at 2. simpl. rewrite IH, <- !app_assoc. reflexivity.
+Qed.
+
+Theorem est_cost_history_independent ws ds k :
+  length ws = length ds ->
+  est_cost_st (est_run (est_new (firstn k ws) (firstn k ds)) (combine (skipn k ws) (skipn k ds))) = est_cost ws ds.
+Proof.
+  intros HL.
+  rewrite est_run_as_new. unfold est_cost_st, est_new. simpl.
+  assert (HL' : length (skipn k ws) = length (skipn k ds)) by (rewrite !skipn_length; lia).
+  assert (E1 : map fst (combine (skipn k ws) (skipn k ds)) = skipn k ws).
+  { revert HL'. generalize (skipn k ws) (skipn k ds). induction l as [|a l IH]; intros [|b l'] H; simpl in *; try discriminate; auto.
+    f_equal. apply IH. lia. }
+  assert (E2 : map snd (combine (skipn k ws) (skipn k ds)) = skipn k ds).
+  { revert HL'. generalize (skipn k ws) (skipn k ds). induction l as [|a l IH]; intros [|b l'] H; simpl in *; try discriminate; auto.
+    f_equal. apply IH. lia. }
+  now rewrite E1, E2, !firstn_skipn.
+Qed.
+
+(** the cost depends only on the multiset of (weight, data set) pairs: the blocks of the cost vector of a permuted
+    estimator are the permuted blocks (each block = cost of its data set times w / (sum of ALL weights)) *)
+Definition est_blocks (pairs : list (R * dataset)) : list (list R) :=
+  map (fun wd => map (fun c => c * (fst wd / sumf (map fst pairs))) (ds_cost_of (snd wd))) pairs.
+
+Lemma sumf_perm l l' : Permutation l l' -> sumf l = sumf l'.
+Proof. induction 1; simpl; try lra; congruence. Qed.
+
+Theorem est_blocks_perm p q : Permutation p q -> Permutation (est_blocks p) (est_blocks q).
+Proof.
+  intros H. unfold est_blocks.
+  rewrite (sumf_perm (map fst p) (map fst q)) by now apply Permutation_map.
+  now apply Permutation_map.
+Qed.
+
+Theorem est_cost_blocks pairs :
+  est_cost (map fst pairs) (map snd pairs) = concat (est_blocks pairs).
+Proof.
+  unfold est_cost, est_cost_with, normalise, est_blocks. f_equal.
+  generalize (sumf (map fst pairs)). intros c.
+  induction pairs as [|[w d] pairs IH]; simpl; [reflexivity|]. now rewrite IH.
+Qed.
+
+Theorem est_state_cost_blocks pairs0 adds :
+  est_cost_st (est_run (est_new (map fst pairs0) (map snd pairs0)) adds) = concat (est_blocks (pairs0 ++ adds)).
+Proof.
+  rewrite est_run_as_new. unfold est_cost_st, est_new. simpl.
+  rewrite <- !map_app. apply est_cost_blocks.
+Qed.
+
+Example est_run_example w1 w2 d1 d2 :
+  est_cost_st (est_run (est_new [w1] [d1]) [(w2, d2)]) = est_cost [w1; w2] [d1; d2].
+Proof. reflexivity. Qed.
+
 (** non-vacuity *)
 Example est_cost_example :
   est_cost [1; 3] [mkds Linear 1 [2] [1]; mkds Linear 1 [3; 3] [2; 4]] = [1 / 1 * (1 / (1 + (3 + 0))); (3 - 2) / 2 / (1 + 1) * (3 / (1 + (3 + 0))); (3 - 4) / 4 / (1 + 1) * (3 / (1 + (3 + 0)))].
